@@ -293,7 +293,10 @@ def judge(events, outs):
                     V.append(_v("C05", f"C05/{fl}/pair/{alt}/prediction-missing", ev, {"n": out["n_missing"], **out.get("history", {})}))
                 if out.get("n_differ"):
                     V.append(_v("C05", f"C05/{fl}/pair/{alt}/predicted-differs:{how}", ev,
-                                {"n": out["n_differ"], "max_abs_diff": out["max_abs_diff"], **out.get("history", {})}))
+                                {"n": out["n_differ"], "max_abs_diff": out["max_abs_diff"], "rows": out.get("rows_where"),
+                                 "entry": (a.get("recipe") or {}).get("entry"), "feed": (a.get("recipe") or {}).get("feed"),
+                                 "tz": (a.get("recipe") or {}).get("tz"), "span": (a.get("recipe") or {}).get("span"),
+                                 "dup": (a.get("recipe") or {}).get("dup"), **out.get("history", {})}))
                 elif out.get("other_cols_differ"):
                     V.append(_v("C05", f"C05/{fl}/pair/{alt}/columns-differ:{'+'.join(out['other_cols_differ'])}:{how}", ev))
 
